@@ -1008,3 +1008,59 @@ Lemma locked_accumulator_order_independent (M : Type) (op : M -> M -> M) (e : M)
   (forall a b c, op a (op b c) = op (op a b) c) -> (forall a b, op a b = op b a) -> (forall a, op e a = a) ->
   forall (l l' : list M), Permutation l l' -> msum op e l = msum op e l'.
 Proof. intros Ha Hc Hu l l' H. apply msum_perm; auto. Qed.
+
+(* =========================================================================================== *)
+(* 9. Item list as state; the error step                                                         *)
+(* =========================================================================================== *)
+(* the list after the rebuild does not depend on the list before, and is a function of the active set of the step alone *)
+Lemma rebuild_items_ignores_old (old old' : list (nat * nat)) (c : cfg) (t : nat) :
+  rebuild_items old c t = rebuild_items old' c t.
+Proof. reflexivity. Qed.
+
+Lemma rebuild_items_active_set (old old' : list (nat * nat)) (c c' : cfg) (t t' : nat) :
+  active_vars t (prep_vars t (c_vars c)) = active_vars t' (prep_vars t' (c_vars c')) ->
+  rebuild_items old c t = rebuild_items old' c' t'.
+Proof. unfold rebuild_items. intros H. rewrite H. reflexivity. Qed.
+
+Lemma items_history_spec (old : list (nat * nat)) (c : cfg) (t n : nat) :
+  forall k, k < n -> exists ck, nth k (items_history rebuild_items old c t n) [] = build_items (active_vars (t + k) (prep_vars (t + k) (c_vars ck))).
+Proof.
+  revert old c t. induction n as [|m IH]; intros old c t k Hk; [lia|].
+  cbn [items_history]. destruct k as [|k'].
+  - exists c. rewrite Nat.add_0_r. reflexivity.
+  - cbn [nth]. destruct (IH (rebuild_items old c t) (next_cfg c t) (S t) k') as [ck Hck]; [lia|].
+    exists ck. rewrite Hck. replace (S t + k') with (t + S k') by lia. reflexivity.
+Qed.
+
+(* the cached variant: two variables with timeStepFactor 2 and 3, one component each: at step 3 only variable 1 is awake but
+   the list still names variable 0 (one item before, one item now) *)
+Lemma rebuild_items_cached_refuted :
+  let c := mkCfg [mkVar 2 [true] [] [1%Z]; mkVar 3 [true] [] [1%Z]] [] false false [] in
+  items_history rebuild_items [] c 0 4 = [[(0, 0); (1, 0)]; []; [(0, 0)]; [(1, 0)]] /\
+  items_history rebuild_items_cached [] c 0 4 = [[(0, 0); (1, 0)]; []; [(0, 0)]; [(0, 0)]].
+Proof. vm_compute. split; reflexivity. Qed.
+
+(* the error step: the serial path leaves the variables AFTER the failing one (and the failing one) uncomputed, the SMP path computes them *)
+Lemma error_step_paths_differ :
+  exists (c : cfg) (t : nat) (s : store) (l : loc),
+    step_error c t = true /\
+    runi (serial_cvc_items_err c t) s l <> runi (smp_cvc_items_err c t) s l.
+Proof.
+  exists (mkCfg [mkVar 1 [true] [false] [1%Z]; mkVar 1 [true] [] [1%Z]] [] false false []), 0,
+         (fun l => match l with LIn 1 0 => 5%Z | _ => 0%Z end), (LX 1).
+  split; [reflexivity|]. vm_compute. discriminate.
+Qed.
+
+(* without an error the two component phases agree (instance of collect_phase) *)
+Lemma error_free_step_paths_agree (c : cfg) (t : nat) (s : store) :
+  step_error c t = false ->
+  (forall p, In p (active_vars t (prep_vars t (c_vars c))) -> any_true (v_flags (snd p)) = true) ->
+  seqi (runi (serial_cvc_items_err c t) s) (runi (smp_cvc_items_err c t) s).
+Proof.
+  intros _ Hall. unfold serial_cvc_items_err, smp_cvc_items_err. cbv zeta.
+  set (avs := active_vars t (prep_vars t (c_vars c))) in *.
+  assert (E : serial_vars_until_error avs = avs).
+  { clearbody avs. induction avs as [|p r IH]; cbn [serial_vars_until_error]; auto.
+    rewrite (Hall p (or_introl eq_refl)). cbn [negb]. rewrite IH; auto. intros q Hq. apply Hall. right; auto. }
+  rewrite E. rewrite smp_cvc_work_concat. fold avs. apply seq_eq_sym. apply collect_phase. apply active_vars_NoDup.
+Qed.
